@@ -60,6 +60,10 @@ def send_term(c, r):
     return f"({c['max_msg']}, {b(c['pmc'])}, [{ops}], [{obs}])"
 
 
+FRAME_WISE_WHAT = ("frame-wise sending (beginMessage/sendMessageFrame/endMessage, beginMessageFrame/sendMessageFrameData) applies no "
+                   "maxMessagePayloadSize guard: a message larger than the limit is written frame by frame")
+
+
 def send_fn(o):
     return "sendMessage" if o["api"] == "message" else "sendPreparedMessage"
 
@@ -161,15 +165,12 @@ def run(ck):
         "send side: the compressor is an oracle (Section variable with the context-takeover laws deflate_laws in "
         "C16_peer_reads_accepted; a toy pair inhabits them; the real zlib pair in the correspondence runs: the driver's peer "
         "inflates everything written with one zlib.decompressobj(-15)); fragmentation of what is written is not modelled",
-        "frame-wise sending (beginMessage / sendMessageFrame / endMessage) has no message-size guard at all: observed "
-        "(histogram send-api:frame-wise-over-limit), not judged -- the message size is not known when the frames go out",
-        "observed, not judged (candidate reported to the integrator): an application overriding onMessageFrameData / "
-        "onMessageFrame / onMessageEnd without chaining (as the shipped examples do) keeps being called after a 1009 "
-        "failure under failByDrop=False, because the failedByMe guards live in the base-class hooks (histogram "
-        "recv-api:*:app-hooks-called-after-1009)",
+        "frame-wise sending (beginMessage / sendMessageFrame / endMessage, beginMessageFrame / sendMessageFrameData) has no "
+        "message-size guard: reported under the one key send-api/frame-wise/over-limit-written (known finding)",
+        "receive APIs: the driver's mixins record every application hook call; after the first close frame written / transport "
+        "drop of a connection the RFC oracle judges failed, none may follow (key .../app-hooks-called-after-failure)",
         "configuration plumbing judges the options the C02/C16 models read; a wrong effective value of another option is "
-        "counted only (histogram config_other_option_differs:*; on the unchanged tree: server allowNullOrigin is reset to "
-        "False by every setProtocolOptions call -- keyword default False instead of None)",
+        "counted only (histogram config_other_option_differs:*)",
     ]
     ck.rule.append("grid limit {1,125,126,65535,65536} x {message limit, frame limit, both set in one setProtocolOptions call (equal / either smaller)} x "
                    "{OPEN, CLOSING after a local sendClose()} x size {limit-1,limit,limit+1,10*limit} x 5 fragment "
@@ -466,19 +467,16 @@ def run(ck):
                                       [len(x) for x in c["chunks"]]]) for c, m in zip(acases, ameta)))
         for i, (c, r, m) in enumerate(zip(acases, ares, ameta)):
             ck.bump(f"recv-api:{m['api']}:{m['plan']}")
-            probe = m["bad"] is not None and m["api"] != "message" and not c["fbd"]
-            if probe:
-                # OBSERVED, not judged: the failedByMe guards live in the base-class hooks (onMessageFrameData, onMessageFrame,
-                # onMessageEnd); an application that overrides them without chaining (as the examples do) keeps being called
-                # while the closing handshake of a 1009 failure runs.  Reported to the integrator as a candidate.
-                cut = next((k for k, e in enumerate(r["events"]) if e[0] in ("sendclose", "drop")), len(r["events"]))
-                after = [e for e in r["events"][cut:] if e[0] == "msg"]
-                ck.bump(f"recv-api:{m['api']}:app-hooks-called-after-1009:{'yes' if after else 'no'}")
-            for key, what in ws_recv.check_against_rfc(c, r):
+            # after WE failed the connection no application hook of any receive API may be called any more (upstream 18d9c61a:
+            # the failedByMe guard sits where the hooks are dispatched, so it also holds for overrides that do not chain)
+            probs = ws_recv.check_against_rfc(c, r)
+            hooked = any(k.endswith("app-hooks-called-after-failure") for k, _ in probs)
+            ck.bump(f"recv-api:{m['api']}:app-hooks-called-after-failure:{'yes' if hooked else 'no'}")
+            for key, what in probs:
                 if "control-callback-after-violation" in key or "processing-after-close-frame" in key:
                     continue
-                if probe and ("msg-after-violation" in key or "oversize-delivery" in key):
-                    continue
+                if hooked and m["api"] != "message" and ("msg-after-violation" in key or "oversize-delivery" in key):
+                    continue      # the mixin handing on what its hooks were given: same violation, one key
                 ck.violation(key if key.startswith("config/") else f"recv-api/{m['api']}/" + key,
                              f"[{fw}] application uses the {m['api']} receive API, limits msg={c['max_msg']} frame={c['max_frame']} "
                              f"({c.get('config_style') or 'one setProtocolOptions call'}), {len(m['sizes'])} messages of sizes {m['sizes']}"
@@ -525,10 +523,18 @@ def run(ck):
             for key, what in judge_sends(fw, c, r):
                 ck.violation(key, what, {"fw": fw, "case": c, "observed": brief_sends(r)}, found_input=True)
             send_model.append((fw, c, r))
-        # frame-wise sending (beginMessage / sendMessageFrame / endMessage) has no message size to compare: observed only
-        fr = ck.run_impl("ws_recv.py", {"fw": fw, "cases": [dict(BASE, role="server", max_msg=60, chunks=[], nolost=True,
-                                                                  sends=[dict(api="frames", len=200, kind="noise", fragment=50)])]}, nvx=False, timeout=300)["results"][0]
-        ck.bump("send-api:frame-wise-over-limit:" + ("written" if fr["sends"]["ops"][0]["wrote"] else "refused"))
+        # frame-wise sending (beginMessage / sendMessageFrame / endMessage, beginMessageFrame / sendMessageFrameData): the message
+        # size is not known when the first frame goes out, and no guard exists (KNOWN finding, one key)
+        fw_cases = [dict(BASE, role=role, max_msg=60, pmc=pmc, chunks=[], nolost=True, sends=[dict(api=api, len=200, kind="noise", fragment=50, dnc=False)])
+                    for role in ("server", "client") for pmc in (False, True) for api in ("frames", "framedata") if not (pmc and api == "framedata")]
+        fw_res = ck.run_impl("ws_recv.py", {"fw": fw, "cases": fw_cases}, nvx=False, timeout=300)["results"]
+        ck.evaluations += len(fw_cases)
+        for c, r in zip(fw_cases, fw_res):
+            g = r["sends"]["ops"][0]
+            ck.bump("send-api:frame-wise-over-limit:" + ("written" if g["wrote"] else "refused"))
+            if g["wrote"] and g["raised"] is None:
+                ck.violation("send-api/frame-wise/over-limit-written", FRAME_WISE_WHAT,
+                             {"fw": fw, "case": c, "observed": brief_sends(r)}, found_input=True)
         ck.log(f"[{fw}] receive APIs ({len(acases)} runs) and send APIs ({len(sa_cases)} runs): {time.time() - t_new:.1f}s")
 
         # ---- decompression cap, real zlib
@@ -629,6 +635,12 @@ def replay(path):
                   f"{'OVER the limit' if send_over(case, o) else 'within the limit'}: raised {g['raised']}, wrote {g['wrote']} octets, "
                   f"compressor output {g['comp_len']}")
         print("peer reads    :", [(len(p[0]) // 2, p[1]) for p in res["sends"]["peer"]], "error:", res["sends"]["peer_error"])
+        if case["sends"][0]["api"] in ("frames", "framedata"):
+            g = res["sends"]["ops"][0]
+            bad = bool(g["wrote"]) and g["raised"] is None
+            print(f"frame-wise send of {case['sends'][0]['len']} octets with maxMessagePayloadSize={case['max_msg']}: raised {g['raised']}, wrote {g['wrote']} octets")
+            print("oracle verdict:", "over-limit message written" if bad else "conforms")
+            return int(bad)
         probs = judge_sends(fw, case, res)
         print("oracle verdict:", probs or "conforms")
         vlib.coq_make(["Model/WsSendGuardRun.vo"])
